@@ -79,7 +79,9 @@ where
             self.gglwe_to_ggsw_key_encrypt_sk_tmp_bytes(res)
         );
 
-        let res: &mut GGLWEToGGSWKeyCompressed<&mut [u8]> = &mut res.to_mut();
+        // The view carries a copy of the seeds: they are stored back into `dst` after each key.
+        let dst: &mut R = res;
+        let res: &mut GGLWEToGGSWKeyCompressed<&mut [u8]> = &mut dst.to_mut();
         let rank: usize = res.rank_out().as_usize();
 
         let (mut sk_prepared, scratch_1) = scratch.take_glwe_secret_prepared(self, res.rank());
@@ -107,6 +109,11 @@ where
                 source_xe,
                 scratch_3,
             );
+        }
+
+        let seeds: Vec<Vec<[u8; 32]>> = (0..rank).map(|i| res.at(i).seed.clone()).collect();
+        for (i, s) in seeds.iter().enumerate() {
+            dst.set_seeds(i, s);
         }
     }
 }
